@@ -91,7 +91,7 @@ impl N {
     pub fn to_name(&self) -> Option<Name> {
         parse_name(&self.tok())
     }
-    fn lower_labels(&self) -> Vec<Vec<u8>> {
+    pub fn lower_labels(&self) -> Vec<Vec<u8>> {
         self.labels.iter().map(|l| lower(l)).collect()
     }
     /// RFC 4034 §6.2: uncompressed, lower case
@@ -103,11 +103,11 @@ impl N {
     }
 }
 
-fn lower(l: &[u8]) -> Vec<u8> {
+pub fn lower(l: &[u8]) -> Vec<u8> {
     l.iter().map(|b| if (b'A'..=b'Z').contains(b) { b + 32 } else { *b }).collect()
 }
 
-fn wire(labels: &[Vec<u8>]) -> Vec<u8> {
+pub fn wire(labels: &[Vec<u8>]) -> Vec<u8> {
     let mut o = vec![];
     for l in labels {
         o.push(l.len() as u8);
@@ -234,7 +234,7 @@ impl RD {
 
     /// RFC 4034 §6.2 canonical RDATA, written from the RFCs (independent of hickory's encoders).
     /// `None`: no wire form (character-string longer than 255).
-    fn ref_canon(&self) -> Option<Vec<u8>> {
+    pub fn ref_canon(&self) -> Option<Vec<u8>> {
         Some(match self {
             RD::A(o) | RD::Aaaa(o) | RD::Op(o) => o.clone(),
             RD::Ns(n) | RD::Cname(n) | RD::Ptr(n) => n.wire_lower(),
@@ -293,15 +293,15 @@ fn real_canon(rd: &RData) -> Option<Vec<u8>> {
 }
 
 impl Rec {
-    fn tok(&self) -> Option<String> {
+    pub fn tok(&self) -> Option<String> {
         Some(format!("{}/{}/{}/{}/{}", self.name.tok(), self.rtype, self.cls, self.ttl, self.rd.tok(self.rtype)?))
     }
-    fn parse(t: &str) -> Option<Rec> {
+    pub fn parse(t: &str) -> Option<Rec> {
         let f: Vec<&str> = t.split('/').collect();
         let [n, ty, c, ttl, rd] = f.as_slice() else { return None };
         Some(Rec { name: N::parse(n)?, rtype: ty.parse().ok()?, cls: c.parse().ok()?, ttl: ttl.parse().ok()?, rd: RD::parse(rd)? })
     }
-    fn to_record(&self) -> Option<Record> {
+    pub fn to_record(&self) -> Option<Record> {
         let mut r = Record::from_rdata(self.name.to_name()?, self.ttl, self.rd.to_rdata(self.rtype)?);
         r.dns_class = DNSClass::from(self.cls);
         Some(r)
@@ -375,7 +375,7 @@ impl Case {
             .collect()
     }
 
-    fn owner_label_count(&self) -> usize {
+    pub fn owner_label_count(&self) -> usize {
         let n = self.name.labels.len();
         if self.name.labels.first().map(|l| l == b"*").unwrap_or(false) { n - 1 } else { n }
     }
@@ -487,16 +487,16 @@ fn is_reordering(c: &Case, bytes: &[u8]) -> bool {
 
 // ------------------------------------------------------------------ keys
 
-struct Key {
-    alg: Algorithm,
-    key: Box<dyn SigningKey>,
-    dnskey: DNSKEY,
-    tag: u16,
+pub struct Key {
+    pub alg: Algorithm,
+    pub key: Box<dyn SigningKey>,
+    pub dnskey: DNSKEY,
+    pub tag: u16,
 }
 
 const RSA_PK8: &[u8] = include_bytes!("/repo/crates/proto/tests/test-data/rsa-2048-private-key-1.pk8");
 
-fn sign_keys() -> &'static Vec<Key> {
+pub fn sign_keys() -> &'static Vec<Key> {
     static K: OnceLock<Vec<Key>> = OnceLock::new();
     K.get_or_init(|| {
         let mut v: Vec<(Algorithm, Box<dyn SigningKey>)> = vec![];
@@ -763,7 +763,7 @@ fn gen_label(r: &mut Rng) -> Vec<u8> {
     }
 }
 
-fn gen_n(r: &mut Rng) -> N {
+pub fn gen_n(r: &mut Rng) -> N {
     let n = match r.below(10) {
         0 => 0,
         1 | 2 => 1,
@@ -774,7 +774,7 @@ fn gen_n(r: &mut Rng) -> N {
     N { labels: (0..n).map(|_| gen_label(r)).collect(), fqdn: !r.chance(1, 25) }
 }
 
-fn flip_case(r: &mut Rng, n: &N, p: u64) -> N {
+pub fn flip_case(r: &mut Rng, n: &N, p: u64) -> N {
     N {
         labels: n
             .labels
@@ -785,12 +785,12 @@ fn flip_case(r: &mut Rng, n: &N, p: u64) -> N {
     }
 }
 
-fn lower_n(n: &N) -> N {
+pub fn lower_n(n: &N) -> N {
     N { labels: n.lower_labels(), fqdn: n.fqdn }
 }
 
 /// a pool of RDATA names with shared suffixes (SOA compression) and case variants
-fn name_pool(r: &mut Rng) -> Vec<N> {
+pub fn name_pool(r: &mut Rng) -> Vec<N> {
     let base = gen_n(r);
     let mut v = vec![base.clone()];
     for _ in 0..4 {
@@ -872,7 +872,7 @@ fn gen_opaque_raw(r: &mut Rng, ty: u16) -> Vec<u8> {
     }
 }
 
-fn gen_rd(r: &mut Rng, tc: u16, pool: &[N], clean: bool) -> RD {
+pub fn gen_rd(r: &mut Rng, tc: u16, pool: &[N], clean: bool) -> RD {
     let mut nm = |r: &mut Rng| {
         let n = r.pick(pool).clone();
         if clean { lower_n(&n) } else if r.chance(1, 2) { flip_case(r, &n, 40) } else { n }
@@ -1029,7 +1029,7 @@ fn gen_case(r: &mut Rng) -> Case {
     }
 }
 
-fn nm(s: &str) -> N {
+pub fn nm(s: &str) -> N {
     N { labels: s.trim_end_matches('.').split('.').filter(|l| !l.is_empty()).map(|l| l.as_bytes().to_vec()).collect(), fqdn: true }
 }
 
